@@ -141,6 +141,23 @@ def replay_coll(job):
                 h = g.LineCollection(hs) if dim == 2 else g.PlaneCollection(hs)
                 p = g.PointCollection(np.array([r["r"]["p"] for r in recs]))
                 val = np.asarray(g.dist(h, p))
+            elif kind in ("ppoly-obj", "ppolyh-obj", "pseg-obj"):
+                # one polytope, all of its query points in one PointCollection (incident and non-incident positions mixed)
+                r0 = recs[0]["r"]
+                P = lambda v: g.Point(np.array(v))  # noqa: E731
+                if kind == "ppoly-obj":
+                    obj = g.Polygon(*[g.Point(*v) for v in r0["poly"]])
+                elif kind == "ppolyh-obj":
+                    c = r0["corner"]
+                    obj = g.Cuboid(g.Point(0, 0, 0), g.Point(c[0], 0, 0), g.Point(0, c[1], 0), g.Point(0, 0, c[2]))
+                else:
+                    obj = g.Segment(P(r0["a"]), P(r0["b"]))
+                pts = g.PointCollection(np.array([r["r"]["p"] for r in recs]))
+                val = np.asarray(g.dist(obj, pts))
+                val2 = np.asarray(g.dist(pts, obj))
+                if val2.shape != val.shape or not np.allclose(val, val2, atol=1e-9, equal_nan=True):
+                    out.append(dict(site=f"{kind}/collection", stratum="general", case={"count": len(recs)},
+                                    expected="dist(a, b) = dist(b, a)", observed={"ab": val.tolist()[:8], "ba": val2.tolist()[:8]}))
             elif kind == "ang2":
                 a = g.PointCollection(np.array([r["r"]["a"] for r in recs]))
                 b = g.PointCollection(np.array([r["r"]["b"] for r in recs]))
@@ -198,6 +215,23 @@ def run(ctx: Ctx):
             for i in range(0, len(sel), 300):
                 if sel[i:i + 300]:
                     jobs.append((kind, sel[i:i + 300]))
+    # one polytope against a PointCollection of all its query points
+    byobj: dict = {}
+    for x in recs:
+        r_ = x["r"]
+        if r_["t"] == "ppoly":
+            byobj.setdefault(("ppoly-obj", str(r_["poly"])), []).append(x)
+        elif r_["t"] == "ppolyh":
+            byobj.setdefault(("ppolyh-obj", str(r_["corner"])), []).append(x)
+        elif r_["t"] == "pseg":
+            byobj.setdefault(("pseg-obj", str((r_["a"], r_["b"]))), []).append(x)
+    ncollobj = 0
+    for (kind, _), sel in sorted(byobj.items()):
+        if len(sel) >= 2:
+            jobs.append((kind, sel))
+            ncollobj += 1
+    if ncollobj < 10:
+        raise MachineryError("too few polytope x PointCollection groups (vacuous)")
     with Pool(16) as pool:
         results = pool.map(_work, jobs, chunksize=1)
     for res in results:
